@@ -4,7 +4,7 @@ import os, re, subprocess, tempfile, shutil
 from ..common import pmap, unesc
 from ..pyparse import py_parse_obj, py_gen_text
 from ..findings import still_fails
-from .. import semgen, corpus
+from .. import semgen, corpus, meaning
 
 ID = "C08"
 LEAN_MODULES = ["PycModel.Properties.C08"]
@@ -86,6 +86,8 @@ def run(ctx):
     tmpdir = tempfile.mkdtemp(prefix="c08_")
     try:
         jobs = [(t, i, tmpdir, ctx.quick()) for i, t in enumerate(progs_ + corp)]
+        # hand-written programs in which every token matters: always at -O0 and -O1
+        jobs += [(t, len(jobs) + i, tmpdir, False) for i, t in enumerate(meaning.PROGRAMS)]
         res = pmap_small(check, jobs)
     finally:
         shutil.rmtree(tmpdir, ignore_errors=True)
@@ -105,7 +107,7 @@ def run(ctx):
     ctx.extra["explanation"] = EXPLANATION
     ctx.extra["programs_compared"] = ok
     ctx.extra["programs_skipped_not_compilable_or_not_parsed"] = skip
-    ctx.rule("%d type-correct programs from the semantic generator (all statement kinds, all integer operators, structs/unions/enums/bit-fields, function pointers, designated initializers, compound literals, qualifiers, storage classes, C11 specifiers) + the compilable programs of the repository corpus; gcc -std=c11 -S at -O0 and -O1, original vs regenerated (both generator configurations), .file/.ident normalised" % n)
+    ctx.rule("%d type-correct programs from the semantic generator (all statement kinds, all integer operators, structs/unions/enums/bit-fields, function pointers, designated initializers, compound literals, qualifiers, storage classes, C11 specifiers) + the compilable programs of the repository corpus + %d hand-written programs in which every token matters to the compiler (qualifiers in every position incl. inside array brackets, conversions, literal suffixes and escapes, initializer bracing and designators, bit-fields and alignment, every operator pair whose grouping matters, enum values, storage classes and function specifiers, fall-through, declarator shapes, K&R definitions, compound literals); gcc -std=c11 -S at -O0 and -O1, original vs regenerated (both generator configurations), .file/.ident normalised" % (n, len(meaning.PROGRAMS)))
     ctx.count(len(jobs), nontrivial_n=ok)
     ctx.sample({"kind": "program", "text": progs_[0][:600]})
 
